@@ -575,7 +575,10 @@ def module_paths(mod, e, base):
             v = ["LoopType", {"off": 0, "forward": 1, "ping_pong": 2}[v]]
         elif f == "loop_sustain":
             v = int(v)
-        return "%s/samples/%d/%s" % (pb, e[2], f), v, []
+        # a Sample object that sits in several slots (put there by an earlier `s_sample_alias` edit or by the
+        # recipe) shows the assignment in each of them
+        twins = ["%s/samples/%d/%s" % (pb, j, f) for j, x in enumerate(mod.samples) if j != e[2] and x is not None and x is mod.samples[e[2]]]
+        return "%s/samples/%d/%s" % (pb, e[2], f), v, twins
     if s == "s_effect_new":
         return pb + "/effect", NOCHECK, []
     if s == "effect":
